@@ -98,14 +98,18 @@ def single_param_groups(seed, n):
                 tmpl_e = "#[derive(Educe)]\n#[educe(%s)]\nenum E<G> {\n    V(u16, G),\n    W { #[educe(%%s)] x: G, y: u16 },\n}\n" % tl
             if trait == "Default":
                 tmpl_e = "#[derive(Educe)]\n#[educe(%s)]\nenum E<G> {\n    V(u16, G),\n    #[educe(Default)] W { #[educe(%%s)] x: G, y: u16 },\n}\n" % tl
-            out.append(("%s/field/struct" % trait, [tmpl % s for s in spellings]))
-            out.append(("%s/field/enum" % trait, [tmpl_e.replace("%s", s) for s in spellings]))
+            # the delimiter of the attribute's argument list is free as well
+            alt = [(tmpl.replace("#[educe(%s)]", d)) % s for s in spellings[:2] for d in ("#[educe[%s]]", "#[educe{%s}]")]
+            alt_e = [tmpl_e.replace("#[educe(%s)]", d).replace("%s", s) for s in spellings[:2] for d in ("#[educe[%s]]", "#[educe{%s}]")]
+            out.append(("%s/field/struct" % trait, [tmpl % s for s in spellings] + alt))
+            out.append(("%s/field/enum" % trait, [tmpl_e.replace("%s", s) for s in spellings] + alt_e))
         elif level == "type":
             if trait == "Default" and any(p[0] == "expression" for p in params):
                 body = "struct S<G>(G, u8);\n"
             else:
                 body = "struct S<G> {\n    a: G,\n    b: u8,\n}\n"
-            out.append(("%s/type/struct" % trait, ["#[derive(Educe)]\n#[educe(%s)]\n%s" % (s, body) for s in spellings]))
+            out.append(("%s/type/struct" % trait, ["#[derive(Educe)]\n#[educe(%s)]\n%s" % (s, body) for s in spellings] +
+                        ["#[derive(Educe)]\n#[educe%s%s%s]\n%s" % (o, s, c, body) for s in spellings[:2] for o, c in ("[]", "{}")]))
             if not any(p[0] == "named_field" for p in params):
                 ebody = "enum E<G> {\n    #[educe(Default)]\n    V(u8, G),\n    W { x: G },\n}\n" \
                     if trait == "Default" and not any(p[0] == "expression" for p in params) \
@@ -114,7 +118,9 @@ def single_param_groups(seed, n):
         else:
             out.append(("%s/variant" % trait, [
                 "#[derive(Educe)]\n#[educe(Debug)]\nenum E<G> {\n    #[educe(%s)]\n    V(u8, G),\n    W { x: G },\n}\n" % s
-                for s in spellings]))
+                for s in spellings] + [
+                "#[derive(Educe)]\n#[educe(Debug)]\nenum E<G> {\n    #[educe%s%s%s]\n    V(u8, G),\n    W { x: G },\n}\n" % (o, s, c)
+                for s in spellings[:2] for o, c in ("[]", "{}")]))
     return out
 
 
